@@ -552,4 +552,6 @@ def run(P, R, tier):
     rules.bitset_primitives(P, R, 'C18.TAB.7')
     # "after a reload the routing is that of the new section": a reload request that reaches the reader is applied
     c15.load_merges(P, Remap(R, {'C15.MPT.3': 'C18.MPT.6', 'C15.WMC.1': 'C18.MPT.6'}))
+    # a message too long for the scratch buffer is formatted a second time: from a copy taken before the first walk
+    rules.va_list_once(P, R, 'C18.MPT.7')
     return EXPLANATION, ASSUMPTIONS
